@@ -35,10 +35,10 @@ def setAdd (ms : List Bytes) (elems : List Bytes) : List Bytes × Nat :=
 def setRemove (ms : List Bytes) (elems : List Bytes) : List Bytes × Nat :=
   elems.foldl (fun (acc : List Bytes × Nat) e => if acc.1.contains e then (acc.1.erase e, acc.2 + 1) else acc) (ms, 0)
 
-/-- reply builder used by every member-listing set command: `*N` then `\r\n$len\r\nmember` per member
-    and one final CR LF only after the last member — so an empty result is the bare `*0` -/
+/-- reply builder used by every member-listing set command (encodeBulkStringArray): `*N\r\n` then
+    `$len\r\nmember\r\n` per member, in Go map order; an empty result is `*0\r\n` -/
 def setArrReply (ms : List Bytes) : Res :=
-  if ms.isEmpty then .ok (b "*0") else .okPerm (arrHdr ms.length) (ms.map bulkStr)
+  .okPerm (arrHdr ms.length) (ms.map bulkStr)
 
 /-- :26 handleSADD -/
 def handleSAdd (_c : Ctx) (cmd : List Bytes) : Prog Res :=
@@ -121,7 +121,7 @@ def handleSRandMember (_c : Ctx) (cmd : List Bytes) : Prog Res :=
       match asSet? (vs.headD .nil) with
       | none => .ret (.err (notSetAt key))
       | some (_, ms) =>
-        if count == 0 then .ret (.ok (b "*0"))
+        if count == 0 then .ret (.ok (b "*0\r\n"))
         else if count.natAbs ≥ ms.length then .ret (setArrReply ms)
         else .ret (.okPick (arrHdr count.natAbs) count.natAbs (decide (count > 0)) (ms.map bulkStr))
   | _ => .ret (.err wrongArgs)
@@ -141,7 +141,7 @@ def handleSPop (c : Ctx) (cmd : List Bytes) : Prog Res :=
       match asSet? (vs.headD .nil) with
       | none => .ret (.err (notSetAt key))
       | some (_, ms) =>
-        if count == 0 then .ret (.ok (b "*0"))
+        if count == 0 then .ret (.ok (b "*0\r\n"))
         else if count.natAbs ≥ ms.length then
           .call (.mutObj key (.set 0 [])) fun _ => .ret (setArrReply ms)
         else
